@@ -378,7 +378,7 @@ impl Prop for C18 {
     }
 
     fn runs(tier: Tier) -> u64 {
-        tier.pick(2_500, 120_000)
+        tier.pick(2_500, 80_000)
     }
 
     fn run_wall_limit_s() -> u64 {
